@@ -12,127 +12,6 @@ WORKERS = 4
 LIMITS = (1, 2, 3, 4)
 
 
-def fast_cover_paths(g, rng, max_paths=None, full=True, max_len=400, want_terminal=True):
-    """Drop-in replacement for vlib.cover_paths for *acyclic* state graphs (every LimitedQueue action
-    increases a counter, leaves a resolution state or destroys the queue).  Same contract: a set of
-    root-to-terminal paths covering every edge, each path preferring uncovered edges.  vlib.cover_paths
-    runs a breadth-first search from the root for every path (quadratic: 200 s for 3*10^4 edges) and
-    stops early when one of several initial states has its sub-graph covered; here the distance to the
-    nearest uncovered edge is maintained incrementally (amortised near-linear)."""
-    out = {n: [(l, d) for (l, d) in es if d != n] for n, es in g.edges.items()}
-    # acyclic?  (iterative DFS, colours) -- otherwise use the shared implementation
-    colour = {}
-    for root in out:
-        if root in colour:
-            continue
-        stack = [(root, 0)]
-        colour[root] = 1
-        while stack:
-            n, i = stack.pop()
-            if i < len(out[n]):
-                stack.append((n, i + 1))
-                d = out[n][i][1]
-                c = colour.get(d, 0)
-                if c == 1:
-                    return _orig_cover_paths(g, rng, max_paths=max_paths, full=full, max_len=max_len,
-                                             want_terminal=want_terminal)
-                if c == 0:
-                    colour[d] = 1
-                    stack.append((d, 0))
-            else:
-                colour[n] = 2
-    total = sum(len(v) for v in out.values())
-    uncovered = {n: list(range(len(es))) for n, es in out.items()}   # indices of uncovered out-edges
-    pred = {}
-    for n, es in out.items():
-        for (_, d) in es:
-            pred.setdefault(d, []).append(n)
-    # du[n]: distance from n to the nearest node (n included) that has an uncovered out-edge; INF when
-    # everything below n is covered.  Kept exact: it only grows, and growth is propagated to predecessors.
-    INF = 1 << 30
-    du = {n: (0 if es else INF) for n, es in out.items()}
-
-    def node_done(n):
-        # the last uncovered edge of n was taken
-        work = [n]
-        while work:
-            m = work.pop()
-            if uncovered[m]:
-                continue
-            best = min((du[d] for (_, d) in out[m]), default=INF)
-            v = best + 1 if best < INF else INF
-            if v != du[m]:
-                du[m] = v
-                work.extend(pred.get(m, ()))
-
-    # distance to the nearest terminal state (acyclic: memoised depth-first)
-    dist_term = {}
-    for root in out:
-        stack = [root]
-        while stack:
-            m = stack[-1]
-            if m in dist_term:
-                stack.pop()
-                continue
-            todo = [d for (_, d) in out[m] if d not in dist_term]
-            if todo:
-                stack.extend(todo)
-            else:
-                dist_term[m] = 1 + min(dist_term[d] for (_, d) in out[m]) if out[m] else 0
-                stack.pop()
-
-    paths = []
-    ncov = 0
-    inits = [i for i in g.init]
-    while inits:
-        if max_paths is not None and len(paths) >= max_paths:
-            break
-        inits = [i for i in inits if du[i] < INF]
-        if not inits:
-            break
-        init = rng.choice(inits)
-        cur = init
-        steps = []
-        while True:
-            unc = uncovered[cur]
-            if unc:
-                # prefer an uncovered edge below which more is to be covered (the path stays productive)
-                good = [j for j in range(len(unc)) if du[out[cur][unc[j]][1]] < INF]
-                j = rng.choice(good) if good else rng.randrange(len(unc))
-                unc[j], unc[-1] = unc[-1], unc[j]
-                i = unc.pop()
-                ncov += 1
-                e = out[cur][i]
-                if not unc:
-                    node_done(cur)
-            else:
-                if du[cur] >= INF:
-                    break
-                # towards the nearest node with an uncovered edge
-                e = rng.choice([x for x in out[cur] if du[x[1]] == du[cur] - 1])
-            steps.append(e)
-            cur = e[1]
-        # everything below cur is covered; extend to a terminal state along a shortest way
-        while want_terminal and out[cur]:
-            e = min(out[cur], key=lambda x: dist_term[x[1]])
-            steps.append(e)
-            cur = e[1]
-        paths.append((init, steps))
-    return paths, ncov, total
-
-
-_orig_cover_paths = vlib.cover_paths
-
-
-def covered_graph_replay(*a, **kw):
-    """graph_replay with the linear path cover (framework.graph_replay looks the function up in vlib)"""
-    vlib.cover_paths = fast_cover_paths
-    try:
-        return graph_replay(*a, **kw)
-    finally:
-        vlib.cover_paths = _orig_cover_paths
-
-
 def proj(st):
     """specification state -> what the replayer observes on the real limited_queue"""
     npush = st["npush"]
@@ -161,6 +40,39 @@ def proj(st):
     }
 
 
+def cproj(st):
+    """projection for the multi-thread replay: per-thread fields, and a push future that the
+    implementation only creates in its return statement (hand-over) is not observable before"""
+    d = proj(st)
+    del d["live"], d["size"]
+    pfut = list(d["pfut"])
+    for t, pc in st["pc"].items():
+        if pc == "push_resolve":
+            pfut[st["hold"][t]["push"] - 1] = "unborn"
+    d["pfut"] = pfut
+    d["pend"] = {t: ("idle" if pc == "idle" else "resolve") for t, pc in st["pc"].items()}
+    return d
+
+
+def conc_replay(ctx):
+    """interleavings of producer and consumer threads at critical-section grain, replayed on real threads: the
+    queue's std::mutex is virtual (interposed pthread layer), so each critical section and the code that follows
+    its unlock (hand-over, completion of the admitted push, unblock resolutions) are separately scheduled; a
+    call that takes the lock a second time, or changes the queue after its unlock, diverges"""
+    rpc = vlib.compile_harness(vlib.VERIF + "/harness/limited_queue_conc_replay.cpp", "limited_queue_conc_replay",
+                               extra_flags=["-rdynamic"], sanitize=False)
+    threads = ["p1", "p2", "c1", "c2"]
+    deep = None if ctx.quick else {"Limits": "{1,2,3}", "ExtraPush": 3, "ExtraPop": 2}
+    graph_replay(ctx, SPEC, SPEC, "LimitedQueue_conc_replay.cfg", "conc_replay", rpc, cproj,
+                 header_fn=lambda k, st0: {"threads": threads, "limit": st0["limit"]}, must_take=ACTIONS,
+                 max_paths=None, extra_random=300 if ctx.quick else 3000,
+                 constants=deep, tlc_kw={"workers": WORKERS})
+    if ctx.quick:
+        ctx.exhaustive = False
+    ctx.assume("multi-thread replay at lock grain: atomic operations are not scheduling points (the promise/future "
+               "protocol itself is decided by C01/C02); futures polled, no coroutines")
+
+
 def run(ctx):
     # thorough: ASan/UBSan and the library's own asserts on (e.g. "Destroy of pending future")
     rp = vlib.compile_harness(vlib.VERIF + "/harness/limited_queue_replay.cpp", "limited_queue_replay",
@@ -182,12 +94,12 @@ def run(ctx):
         return {"limit": st0["limit"], "variants": vs}
     deep = {} if ctx.quick else {"ExtraPush": 4, "ExtraPop": 3, "MaxUnblockPush": 3, "MaxUnblockPop": 2}
     for limit in LIMITS:
-        # one TLC run per limit: the path cover wants a single initial state
+        # one TLC run per limit (small graphs, per-limit evidence)
         consts = dict(deep)
         consts["Limits"] = "{%d}" % limit
-        covered_graph_replay(ctx, SPEC, SPEC, "LimitedQueue_seq.cfg", "seq_l%d" % limit, rp, proj,
-                             header_fn=hdr, merge_re=MERGE, must_take=ACTIONS, constants=consts,
-                             extra_random=200 if ctx.quick else 2000, tlc_kw={"workers": WORKERS})
+        graph_replay(ctx, SPEC, SPEC, "LimitedQueue_seq.cfg", "seq_l%d" % limit, rp, proj,
+                     header_fn=hdr, merge_re=MERGE, must_take=ACTIONS, constants=consts,
+                     extra_random=200 if ctx.quick else 2000, tlc_kw={"workers": WORKERS})
 
     # 2. all interleavings of 2 producer + 2 consumer threads at critical-section grain (design level)
     conc = None if ctx.quick else {"ExtraPop": 3, "MaxUnblockPush": 2}
@@ -201,7 +113,10 @@ def run(ctx):
     if res.violation:
         ctx.tlc_violation(res, "LimitedQueue:LimitedQueue_conc.cfg")
 
-    # 3. the properties are not vacuous: the model of the code before fca2138 (item enqueued *and*
+    # 3. the same grain on real threads
+    conc_replay(ctx)
+
+    # 4. the properties are not vacuous: the model of the code before fca2138 (item enqueued *and*
     #    parked) must be rejected
     base = open(os.path.join(sd, "LimitedQueue_seq.cfg")).read()
     pre = os.path.join(vlib.BUILD, "%s_prefix.cfg" % ctx.prop)
